@@ -32,9 +32,9 @@ def sortTrans (l : List (Nat × Nat)) : List (Nat × Nat) := l.foldr insertSorte
 /-- BFS from state 0, children in ascending character order, first visit names the state -/
 def bfs (d : Dict) : Array (Nat × List Nat) × Array Nat := Id.run do
   let mut nodes : Array (Nat × List Nat) := #[(0, [])]
-  let mut nodeOf : Array Nat := Array.replicate 65536 0
+  let mut nodeOf : Array Nat := Array.replicate (d.size + 1) 0
   nodeOf := nodeOf.set! 0 1
-  for head in [0:min d.size 65536 + 1] do
+  for head in [0:d.size + 1] do
     if head < nodes.size then
       let (st, key) := nodes[head]!
       let s := d.getD st {}
